@@ -525,7 +525,16 @@ func (obj *Flavor) LoadForm() slip.Object {
 		inh,
 	}
 	if 0 < len(obj.initable) {
-		if len(obj.initable) == len(keys) {
+		// The option without names stands for all the variables, the
+		// inherited ones included.
+		all := true
+		for k := range obj.defaultVars {
+			if k != "self" && !obj.initable[":"+k] {
+				all = false
+				break
+			}
+		}
+		if all && len(obj.initable) == len(obj.defaultVars)-1 {
 			df = append(df, slip.Symbol(":inittable-instance-variables"))
 		} else {
 			var iiv slip.List
